@@ -121,11 +121,6 @@ def handle : Handler
           ("seeds-kept", Vote.singleClass rt.values || Spec.seedsKept rt.values l),
           ("fixed-point", !stable || Spec.fixedPointOK cw l upd)])) "bad-args"
   -- probability rows of any classifier
-  | "c13.spec_rows", [eps, rows] => some <| Option.getD (do
-      let eps ← rat? eps
-      let rows ← ratListList? rows
-      let bad := (List.range rows.length).filter fun i => !Spec.rowOK eps (rows.getD i [])
-      some (if bad.isEmpty then "holds" else "fails rows=" ++ showList bad)) "bad-args"
   -- rows of Propagation in the strong form: 1 when a labelled neighbour of positive weight exists, 0 otherwise
   | "c13.spec_prop_rows", [n, m, ip, ix, dt, v, r, c, eps, labels, rows] => some <| Option.getD (do
       let rt ← routed? n m ip ix dt "0" v r c
